@@ -43,6 +43,24 @@ fn convert_to_unix_newlines(formatted_text: &str) -> String {
     formatted_text.replace(WINDOWS_NEWLINE, UNIX_NEWLINE)
 }
 
+/// Verification hook: the whole-text newline stages, as `Formatter::format_module` runs them.
+/// `stage` 0 = `convert_to_unix_newlines(text)`, 1 = `convert_to_windows_newlines(text)`,
+/// 2..=5 = `apply_newline_style` with `Auto`, `Native`, `Windows`, `Unix` (`raw` is the text
+/// the style is detected from).
+#[cfg(fuellabs_sway_verif)]
+pub fn verif_newline_stage(stage: u8, text: &str, raw: &str) -> Result<String, FormatterError> {
+    let mut out = String::from(text);
+    match stage {
+        0 => return Ok(convert_to_unix_newlines(text)),
+        1 => return convert_to_windows_newlines(&out),
+        2 => apply_newline_style(NewlineStyle::Auto, &mut out, raw)?,
+        3 => apply_newline_style(NewlineStyle::Native, &mut out, raw)?,
+        4 => apply_newline_style(NewlineStyle::Windows, &mut out, raw)?,
+        _ => apply_newline_style(NewlineStyle::Unix, &mut out, raw)?,
+    }
+    Ok(out)
+}
+
 #[cfg(test)]
 mod tests {
     use super::*;
